@@ -1,7 +1,6 @@
 package system
 
 import (
-	"errors"
 	"regexp"
 
 	"github.com/uptrace/bun"
@@ -78,7 +77,7 @@ func (h ledgersResourceHandler) Project(_ common.ResourceQuery[ListLedgersQueryP
 }
 
 func (h ledgersResourceHandler) Expand(_ common.ResourceQuery[ListLedgersQueryPayload], _ string) (*bun.SelectQuery, *common.JoinCondition, error) {
-	return nil, nil, errors.New("no expansion available")
+	return nil, nil, common.NewErrInvalidQuery("no expansion available")
 }
 
 var _ common.RepositoryHandler[ListLedgersQueryPayload] = ledgersResourceHandler{}
